@@ -130,6 +130,7 @@ FAULTS = {
     "start-args": "start A1Action(x=$undefined_var.foo)",
     "match-args": "match E2(x=$undefined_var.foo)",
     "match-regex": 'match E2(x=regex("("))',
+    "match-ref": "match $undefined_ref.Finished()",     # fails when the head MOVES to the statement (the event name is needed for the index)
     "priority": 'priority "high"',
     "index": "$x = [1, 2][5]",
 }
